@@ -220,11 +220,11 @@ func clipq(s string) string {
 		}
 		b.WriteRune(r)
 	}
-	out := b.String()
-	if len(out) > 90 {
-		out = out[:90]
+	out := []rune(b.String())
+	if len(out) > 70 {
+		out = out[:70]
 	}
-	return out
+	return string(out)
 }
 
 func sortedKeys[V any](m map[string]V) []string {
